@@ -5,6 +5,7 @@ import LlgVerif.Model.Cache
 import LlgVerif.Spec.Regex
 import LlgVerif.Model.Repeat
 import LlgVerif.Model.Engine
+import LlgVerif.Model.Slicer
 import Driver.Util
 open LlgVerif Drv
 
@@ -25,6 +26,7 @@ structure St where
   engCfg : Option (EngCfg Nat) := none
   engSt : EngState Nat := { st := 0, tokens := [], stopped := false }
   engHist : List (EngState Nat) := []
+  sliceTop : Option Slice := none
 
 /-- DFA over byte classes: `cls[b]` in `0..k`, `trans[q*k + c]` = successor, `≥ n` = dead. -/
 structure TDfa where
@@ -282,6 +284,31 @@ def handleEng (st : St) (args : List String) : St × String :=
     | _, _ => (st, "bad-op")
   | _ => (st, "bad-op")
 
+partial def sliceOfSexp : SExp → Option Slice
+  | .list (.atom "n" :: .atom i :: .atom m :: kids) => do
+      let i ← i.toNat?
+      let m ← parseNatList? m
+      let ks ← kids.mapM sliceOfSexp
+      pure (Slice.node i m ks)
+  | _ => none
+
+/-- slicer model: `tree <sexp>`, `bias <matched idx list> <allowed ids> <subsumePossible>` -/
+def handleSlice (st : St) (args : List String) : St × String :=
+  match args with
+  | "tree" :: rest =>
+    match (parseSexp (" ".intercalate rest)).bind sliceOfSexp with
+    | some t => ({ st with sliceTop := some t }, "ok")
+    | none => (st, "bad-op")
+  | ["bias", matched, allowed, sp] =>
+    match st.sliceTop, parseNatList? matched, parseNatList? allowed with
+    | some top, some matched, some allowed =>
+      let al := allowed.toArray
+      let isAllowed (t : Nat) : Bool := al.binSearchContains t (· < ·)
+      let r := Slice.computeBias (fun i => matched.contains i) isAllowed top (sp = "1")
+      (st, s!"ok {showNatList (canonSet r)}")
+    | _, _, _ => (st, "bad-op")
+  | _ => (st, "bad-op")
+
 def handleTrie (st : St) (args : List String) : St × String :=
   match args with
   | ["build", ws] =>
@@ -338,6 +365,7 @@ def step (st : St) (line : String) : St × String :=
   | "rx" :: args => handleRx st args
   | "rep" :: args => (st, handleRep args)
   | "eng" :: args => handleEng st args
+  | "slice" :: args => handleSlice st args
   | "rb" :: args => handleRb st args
   | ["reset"] => ({}, "ok")
   | _ => (st, "bad-op")
